@@ -34,6 +34,7 @@ type vCacheRun struct {
 	pairIdx map[vKeyPair]uint64
 	done    []string // helper goroutines that finished since the last op line
 	armed   func(key uint64) // runs once inside the next OnEvict callback (re-entrant call from the sweep)
+	armedX  func()           // runs once inside the next OnExit callback of a non-zero value
 }
 
 func (r *vCacheRun) key(h, c uint64) uint64 {
@@ -126,6 +127,10 @@ func vRunCacheCase(t *testing.T, cs *vCacheCase) []string {
 			OnExit: func(v uint64) {
 				if v != 0 {
 					r.addCb(fmt.Sprintf("exit:%d", v))
+					if f := r.armedX; f != nil {
+						r.armedX = nil
+						f()
+					}
 				}
 			},
 		}
@@ -237,6 +242,20 @@ func vRunCacheCase(t *testing.T, cs *vCacheCase) []string {
 				res = helper(id, func() { c.Clear() })
 			case "close":
 				res = helper(id, func() { c.Close() })
+				closed = true
+			case "closeset":
+				// Close during which the first OnExit issues a Set (a Set that overlaps Close)
+				k := r.key(vu(op[1]), vu(op[2]))
+				v := vu(op[3])
+				r.mu.Lock()
+				r.costs[v] = vi(op[4])
+				r.mu.Unlock()
+				r.armedX = func() {
+					ok := c.SetWithTTL(k, v, 0, 0)
+					r.addCb(fmt.Sprintf("rwset:%d:%v", v, ok))
+				}
+				res = helper(id, func() { c.Close() })
+				r.armedX = nil
 				closed = true
 			case "rem":
 				res = fmt.Sprint(c.RemainingCost())
